@@ -26,7 +26,7 @@ from ..minieval import _MISSING, Evaluator, PyRaise, Record, Unsupported
 from ..model import FuncInfo, Repo, dotted, load_repo
 from ..opsummary import all_summaries
 from ..report import AnalysisError, Report
-from ..util import body_walk, cmp_normal, src
+from ..util import cli_args_name, body_walk, cmp_normal, src
 from ..vmvals import Fresh, Unknown
 from .c10 import cli_arms
 
@@ -85,7 +85,7 @@ def check_partition(repo: Repo, rep: Report, max_n: int = 3):
 
                 env = {
                     stacked: pickles,
-                    "args": Record("args", {"inject": "CODE", "inject_target": t, "run_last": run_last, "replace_result": replace, "check_safety": False, "trace": False, "create": None}),
+                    cli_args_name(main.node): Record("args", {"inject": "CODE", "inject_target": t, "run_last": run_last, "replace_result": replace, "check_safety": False, "trace": False, "create": None}),
                     "sys": Record("sys", {"stdout": stdout, "stderr": stderr}),
                     "fickle": fickle_ns,
                     **module_consts,
@@ -161,7 +161,7 @@ def check_range_guard(repo: Repo, rep: Report):
     guard = None
     for t in g.find(lambda n: n.kind == "test"):
         c = cmp_normal(t.ast)
-        if c and dotted(c[0]) == "args.inject_target" and isinstance(c[2], ast.Call) and dotted(c[2].func) == "len" and dotted(c[2].args[0]) == stacked:
+        if c and dotted(c[0]) == f"{cli_args_name(main.node)}.inject_target" and isinstance(c[2], ast.Call) and dotted(c[2].func) == "len" and dotted(c[2].args[0]) == stacked:
             guard = (t, c[1])
     if guard is None:
         rep.bad("C18.range-guard", main.qualname, "no-guard", f"the --inject arm has no `args.inject_target >= len({stacked})` test before writing", main.file, arm.lineno)
@@ -222,7 +222,7 @@ def check_var_threading(repo: Repo, rep: Report, max_n: int = 3):
                 return _MISSING
 
             pickles = [Record("Pickled", {"idx": i}) for i in range(n)]
-            env = {stacked: pickles, "args": Record("args", {"trace": trace, "inject": None, "check_safety": False}), "fickle": Record("m", {}), "tracing": Record("m", {})}
+            env = {stacked: pickles, cli_args_name(main.node): Record("args", {"trace": trace, "inject": None, "check_safety": False}), "fickle": Record("m", {}), "tracing": Record("m", {})}
             ev = Evaluator(env, call_hook=hook)
             try:
                 ev.run_body(body)
